@@ -266,7 +266,8 @@ def c18(tier, seed):
              "curve25519-dalek (clamp(SHA-512(seed)[..32]).B), PEM presentation variants, concatenated PEM public keys; totality: every single-byte substitution and "
              "every truncation of the four DER forms, PEM mutations, length/tag edits and random bytes through the five public parsers under a panic trap and the "
              "counting allocator; distinct = distinct input; all non-trivial",
-        musthit=["held:pair", "held:ed25519", "held:pem-many", "hostile:refused", "pem_variant0:accepted", "pair_patterned_key_bytes"],
+        musthit=["held:pair", "held:ed25519", "held:pem-many", "hostile:refused", "pem_variant0:accepted", "pair_patterned_key_bytes",
+                 "pem_many_with_repeated_keys"],
     )
 
 
@@ -293,7 +294,8 @@ def c16(tier, seed):
              "of every successful file-mutating syscall, each path resolved and classified; observer 2: snapshot (type, size, SHA-256) of the sandbox outside the output "
              "directory before and after; members without '..' that do not collide and fit OS limits must be extracted exactly; distinct = distinct case; non-trivial = >= 2 members",
         musthit=["musthit:absolute_name", "musthit:dotdot_in_the_middle", "form:whole_archive_linear", "form:listed_names", "form:glob",
-                 "syscalls_inside_output_dir", "members_extracted_exactly", "snapshot_unchanged_outside_output_dir"],
+                 "syscalls_inside_output_dir", "members_extracted_exactly", "snapshot_unchanged_outside_output_dir",
+                 "musthit:member_reaching_an_existing_outside_file_through_a_symlink", "musthit:component_of_exactly_255_bytes"],
         assumptions=["a member through a pre-existing symlink, a component over 255 bytes, an over-long path or a file/directory conflict puts the archive under the containment clause only"],
     )
 
